@@ -165,6 +165,34 @@ def run(ctx):
 def sequence_case(ctx, sub, r, cid, call, agree, SC, S, snapshot, brief,
                   is_spectral, spectral_defined):
     from pvm.mon.reflect import same
+    # 40 % of the network-type objects are used the way their owner has
+    # customised them after construction: own node weights, a link and a
+    # node attribute of the owner's (every baseline object gets the same)
+    custom_seed = int(r.integers(1 << 30)) if r.random() < 0.4 else None
+    _plain_build = sub.build
+
+    class _Sub:
+        def __getattr__(self, k):
+            return getattr(sub_orig, k)
+
+        def build(self, mm):
+            o = _plain_build(mm)
+            if custom_seed is None or not hasattr(o, "set_link_attribute") \
+                    or not hasattr(o, "sp_A"):
+                return o
+            rc = np.random.default_rng(custom_seed)
+            n = int(o.N)
+            A = np.asarray(o.adjacency)
+            W = np.round(rc.uniform(0.5, 4.0, (n, n)) * 8) / 8
+            if not o.directed:
+                W = np.triu(W, 1)
+                W = W + W.T
+            o.node_weights = np.round(rc.uniform(0.5, 3.0, n) * 8) / 8
+            if A.any():
+                o.set_link_attribute("owner_w", W * (A != 0))
+            o.set_node_attribute("owner_tag", list(range(n)))
+            return o
+    sub_orig, sub = sub, _Sub()
     try:
         with ctx.quiet():
             m = sub.gen(r)
@@ -190,9 +218,33 @@ def sequence_case(ctx, sub, r, cid, call, agree, SC, S, snapshot, brief,
         culprit_only += NET_CULPRITS
     if sub.name in ("RecurrenceNetwork",):
         culprit_only += CULPRITS["RecurrencePlot"]
+    # the documented ways of dropping caches by hand: neutral, every answer
+    # must stay what it is (and whatever is recomputed afterwards must not
+    # undo anything the owner has set)
+    for nm in ("cache_clear", "clear_cache"):
+        if callable(getattr(obj, nm, None)):
+            culprit_only.append(
+                (nm, lambda o, nm=nm: getattr(o, nm)()))
+    clearers = list(culprit_only[-2:]) if culprit_only and \
+        culprit_only[-1][0] in ("cache_clear", "clear_cache") else []
+    clearers = [c for c in clearers if c[0] in ("cache_clear", "clear_cache")]
+    owner_q = []
     nq = 60 if ctx.thorough else 40
     idx = r.permutation(len(allq))[:nq]
     Q = [allq[i] for i in idx]
+    if custom_seed is not None and hasattr(obj, "set_link_attribute") \
+            and hasattr(obj, "sp_A"):
+        ctx.count("objects_customised_by_owner")
+        Q += [q for q in allq if q[0] in ("attr:node_weights",
+                                          "attr:adjacency") and q not in Q]
+        if np.asarray(obj.adjacency).any():
+            Q.append(("link_attribute(owner_w)",
+                      lambda o: o.link_attribute("owner_w")))
+        Q.append(("node_attribute(owner_tag)",
+                  lambda o: list(o.node_attribute("owner_tag"))))
+        owner_q = [q for q in Q if q[0] in (
+            "attr:node_weights", "attr:adjacency", "link_attribute(owner_w)",
+            "node_attribute(owner_tag)")]
     # class-specific queries (two-group measures, effective resistances,
     # twins, ...) always take part
     extra_labels = {lb for lb, _ in sub.extra_queries(obj, m)}
@@ -218,6 +270,11 @@ def sequence_case(ctx, sub, r, cid, call, agree, SC, S, snapshot, brief,
         [(lb, q, True) for lb, q in culprit_only]
     order = r.permutation(len(seq))
     seq = [seq[i] for i in order]
+    # caches are dropped by hand twice more somewhere in the sequence, and
+    # what the owner has set is read once more at the very end
+    for c in clearers * 2:
+        seq.insert(int(r.integers(0, len(seq) + 1)), (c[0], c[1], True))
+    seq += [(lb, q, False) for lb, q in owner_q]
     ctx.count(f"seq:{sub.name}")
     returned = []       # (label, live object, snapshot)
     done = []
